@@ -146,7 +146,8 @@ def query_flows(
             flows = [f for f in flows if f.source and f.source.name == name]
         else:
             source = frozenset(source.items())
-            flows = [f for f in flows if f.source and f.source._has_strata(source)]
+            # A missing end (entry flow) never excludes a flow, as in BaseFlow.is_match
+            flows = [f for f in flows if (not f.source) or f.source._has_strata(source)]
 
     if dest:
         if "name" in dest:
@@ -155,7 +156,8 @@ def query_flows(
             flows = [f for f in flows if f.dest and f.dest.name == name]
         else:
             dest = frozenset(dest.items())
-            flows = [f for f in flows if f.dest and f.dest._has_strata(source)]
+            # A missing end (exit flow) never excludes a flow, as in BaseFlow.is_match
+            flows = [f for f in flows if (not f.dest) or f.dest._has_strata(dest)]
 
     if tags:
         if isinstance(tags, str):
